@@ -11,7 +11,7 @@ CLAIMED = {
     "C01": dict(
         engine="factosim-exec",
         text="Seeded exploration: stateless scalar programs are compiled by the real compiler under an injected layout-solver / routing fault plan and hash seed, the emitted JSON is executed tick by tick in the circuit-network model while the declared inputs are driven through a history of valuations; after each step the circuit must settle within a bound derived from the blueprint and every exported name must carry the value (and type where the language fixes it) computed by an independent reference interpreter. Evidence, not proof.",
-        note="Trusted base: the Factorio 2.0 circuit-network model (factosim/world.py, written from documentation, cannot be validated against the game offline) and the reference interpreter (factosim/lang.py). Runs whose blueprint shows the structural trigger of a reproduced known finding are excluded and counted.",
+        note="Trusted base: the Factorio 2.0 circuit-network model (factosim/world.py, written from documentation, cannot be validated against the game offline) and the reference interpreter (factosim/lang.py). A run is excluded (and counted, per tag) only when the program text has the static trigger of a reproduced known finding AND the blueprint shows its structure (DESIGN.md §13.4).",
         ref="DESIGN.md §8 C01",
     ),
     "C03": dict(
@@ -52,7 +52,7 @@ CLAIMED = {
     ),
     "C19": dict(
         engine="factosim-exec",
-        text="Seeded stateful exploration: histories of 2-8 operations (compile one of several programs under options and a solver/routing fault plan, chdir, recompile) run inside one process per run, in interpreters started with different PYTHONHASHSEED values; after every compile the outcome class and the canonical logical circuit (positions, relay poles, numbering erased; WL colour-refinement hash of entity configurations + connector partition) are compared with a fresh-process, hash-seed-0, default-mode compile of the same source on the same tree. Reduced determinism self-test of the simulator itself is part of the quick tier.",
+        text="Seeded stateful exploration: histories of 2-8 operations (compile one of several programs - including edited versions of one program back to back - under options and a solver/routing fault plan, chdir, recompile) run inside one process per run, in interpreters started with different PYTHONHASHSEED values; after every compile the outcome class and the canonical logical circuit (positions, relay poles, numbering erased; WL colour-refinement hash of entity configurations + connector partition) are compared with a fresh-process, hash-seed-0, default-mode compile of the same source on the same tree. Reduced determinism self-test of the simulator itself is part of the quick tier.",
         note="Trusted base: canonicalisation (isomorphic circuits always hash equal; collisions can only hide a difference). No golden files - the reference is recomputed from the current tree.",
         ref="DESIGN.md §8 C19",
     ),
